@@ -21,8 +21,8 @@ Print Assumptions C16_ttl_decrements_hop.
 
 (* along a trajectory through ANY topology and tables: the k-th forwarded frame carries the
    initial TTL minus (k+1) *)
-Theorem C16_ttl_decrements : forall routers host_ip topo start p l e,
-  trajectory routers host_ip topo start p = (l, e) ->
+Theorem C16_ttl_decrements : forall routers accepts topo start p l e,
+  trajectory routers accepts topo start p = (l, e) ->
   forall k h, nth_error l k = Some h ->
     p_ttl (ho_pkt h) + N.of_nat (S k) = p_ttl p /\ 1 <= p_ttl (ho_pkt h).
 Proof. exact ttl_decrements. Qed.
@@ -32,8 +32,8 @@ Print Assumptions C16_ttl_decrements.
    trajectory carry the same TTL *)
 Theorem C16_one_in_one_out :
   (forall r resolves p, (length (hop_out r resolves p) <= 1)%nat) /\
-  (forall routers host_ip topo start p l e,
-     trajectory routers host_ip topo start p = (l, e) ->
+  (forall routers accepts topo start p l e,
+     trajectory routers accepts topo start p = (l, e) ->
      NoDup (map (fun h => p_ttl (ho_pkt h)) l)).
 Proof. exact (conj hop_out_le1 no_dup_ttl). Qed.
 Print Assumptions C16_one_in_one_out.
@@ -41,33 +41,33 @@ Print Assumptions C16_one_in_one_out.
 (* TTL bounds the life, for EVERY topology and table assignment (loops, black holes): at most
    TTL forwarded frames; counting the sender's own frame, at most TTL frames in total; and the
    trajectory function never runs out of its fuel (= TTL + 1) *)
-Theorem C16_bounded : forall routers host_ip topo start p,
-  (forall l e, trajectory routers host_ip topo start p = (l, e) ->
+Theorem C16_bounded : forall routers accepts topo start p,
+  (forall l e, trajectory routers accepts topo start p = (l, e) ->
      (length l <= N.to_nat (p_ttl p))%nat /\
      (1 <= p_ttl p -> (S (length l) <= N.to_nat (p_ttl p))%nat)) /\
-  snd (trajectory routers host_ip topo start p) <> EFuel.
+  snd (trajectory routers accepts topo start p) <> EFuel.
 Proof.
-  exact (fun routers host_ip topo start p =>
-           conj (bounded routers host_ip topo start p)
-                (never_out_of_fuel routers host_ip topo start p)).
+  exact (fun routers accepts topo start p =>
+           conj (bounded routers accepts topo start p)
+                (never_out_of_fuel routers accepts topo start p)).
 Qed.
 Print Assumptions C16_bounded.
 
 (* the trajectory is the path the tables define: consecutive frames are chained through the
    topology, every hop uses the table entry of its router, and the ending is justified
    (delivered at the owner of the destination, TTL ran out, no route, nobody answers ARP) *)
-Theorem C16_follows_route : forall routers host_ip topo start p l e,
-  wf_pkt p -> trajectory routers host_ip topo start p = (l, e) ->
+Theorem C16_follows_route : forall routers accepts topo start p l e,
+  wf_pkt p -> trajectory routers accepts topo start p = (l, e) ->
   chain start l /\ Forall (hop_ok routers topo (p_dst p)) l /\
-  ending_ok routers host_ip topo start p l e.
+  ending_ok routers accepts topo start p l e.
 Proof. exact follows_route. Qed.
 Print Assumptions C16_follows_route.
 
 (* ... and with tables built through IpTable's interface (C09) that entry is the
    longest-prefix match of the destination *)
-Theorem C16_follows_lpm : forall routers host_ip topo start p l e,
+Theorem C16_follows_lpm : forall routers accepts topo start p l e,
   (forall r, tbl_inv (r_table (routers r))) ->
-  trajectory routers host_ip topo start p = (l, e) ->
+  trajectory routers accepts topo start p = (l, e) ->
   forall h, In h l ->
     exists n gw, In (n, (gw, ho_slot h)) (tbl_iter (r_table (routers (ho_router h)))) /\
                  contains n (p_dst p) = true /\
@@ -78,32 +78,32 @@ Theorem C16_follows_lpm : forall routers host_ip topo start p l e,
 Proof. exact follows_lpm. Qed.
 Print Assumptions C16_follows_lpm.
 
-Theorem C16_payload_unchanged : forall routers host_ip topo start p l e,
-  trajectory routers host_ip topo start p = (l, e) ->
+Theorem C16_payload_unchanged : forall routers accepts topo start p l e,
+  trajectory routers accepts topo start p = (l, e) ->
   forall h, In h l -> same_but_ttl p (ho_pkt h).
 Proof. exact payload_unchanged. Qed.
 Print Assumptions C16_payload_unchanged.
 
 (* a trajectory has one ending; if it is a delivery, it is at the last node reached, which is
    a host that listens on the destination address *)
-Theorem C16_only_destination : forall routers host_ip topo start p l e,
-  trajectory routers host_ip topo start p = (l, e) ->
-  forall h, e = EDelivered h -> host_ip h = p_dst p /\ last_node start l = NHost h.
+Theorem C16_only_destination : forall routers accepts topo start p l e,
+  trajectory routers accepts topo start p = (l, e) ->
+  forall h, e = EDelivered h -> accepts h (p_dst p) = true /\ last_node start l = NHost h.
 Proof. exact only_destination. Qed.
 Print Assumptions C16_only_destination.
 
 (* correct (ranked, hence loop-free) routes deliver, within rank+1 router hops, if the TTL
    allows it *)
-Theorem C16_delivered : forall routers host_ip topo r p hd P rank,
-  ranked routers host_ip topo p hd P rank -> P r ->
+Theorem C16_delivered : forall routers accepts topo r p hd P rank,
+  ranked routers accepts topo p hd P rank -> P r ->
   (rank r + 2 <= N.to_nat (p_ttl p))%nat ->
-  exists l, trajectory routers host_ip topo (NRouter r) p = (l, EDelivered hd) /\
+  exists l, trajectory routers accepts topo (NRouter r) p = (l, EDelivered hd) /\
             (length l <= S (rank r))%nat.
 Proof. exact delivered. Qed.
 Print Assumptions C16_delivered.
 
 Example C16_example_ranked :
-  ranked (cfg_router (ex_line 65535)) (cfg_host_ip (ex_line 65535)) (cfg_topo (ex_line 65535))
+  ranked (cfg_router (ex_line 65535)) (cfg_accepts (ex_line 65535)) (cfg_topo (ex_line 65535))
          (ex_pkt 30 18) 1 (fun r => r = 0 \/ r = 1) (fun r => if r =? 0 then 1%nat else 0%nat).
 Proof. exact ex_ranked. Qed.
 Print Assumptions C16_example_ranked.
@@ -144,10 +144,10 @@ Print Assumptions C16_example_validate.
 (* TTL 0 at a router: u8 underflow in the dev profile.  No conforming host and no router emits
    TTL 0 (C16_ttl_decrements: forwarded TTLs are >= 1; the stack's default is 30), so this
    needs a forged frame. *)
-Theorem C16_remark_ttl0_panics : forall r p routers host_ip topo,
+Theorem C16_remark_ttl0_panics : forall r p routers accepts topo,
   p_ttl p = 0 ->
   route_step (routers r) p = Panic site_ttl_sub /\
-  trajectory routers host_ip topo (NRouter r) p = ([], EPanic r site_ttl_sub).
+  trajectory routers accepts topo (NRouter r) p = ([], EPanic r site_ttl_sub).
 Proof. exact remark_ttl0_panics. Qed.
 Print Assumptions C16_remark_ttl0_panics.
 
@@ -170,3 +170,10 @@ Theorem C16_remark_slot_panics :
   route_step r' (ex_pkt 30 18) = Panic site_pci_open.
 Proof. exact remark_slot_panics. Qed.
 Print Assumptions C16_remark_slot_panics.
+
+(* [accepts] of a concrete configuration: unless the application listens on 0.0.0.0, a host
+   accepts exactly its own address (so C16_only_destination names the destination host) *)
+Theorem C16_accepts_own_address : forall c h dst, hc_wild (cfg_hc c h) = false ->
+  cfg_accepts c h dst = true -> cfg_host_ip c h = dst.
+Proof. exact cfg_accepts_own. Qed.
+Print Assumptions C16_accepts_own_address.
